@@ -35,7 +35,12 @@ func init() {
 	// base point: y = 4/5, x even
 	BaseY = new(big.Int).Mul(big.NewInt(4), new(big.Int).ModInverse(big.NewInt(5), P))
 	BaseY.Mod(BaseY, P)
-	initPoints()
+	by := ToLE(BaseY, 32)
+	var ok bool
+	base, ok = Decode(by)
+	if !ok {
+		panic("ref: base point does not decode")
+	}
 }
 
 // Point is a projective twisted Edwards point (X:Y:Z), x = X/Z, y = Y/Z.
@@ -246,14 +251,15 @@ var (
 	baseTab [64][16]Point // baseTab[i][j] = [j * 16^i]B
 )
 
-func initPoints() {
-	by := ToLE(BaseY, 32)
-	var ok bool
-	base, ok = Decode(by)
-	if !ok {
-		panic("ref: base point does not decode")
+var (
+	tabReady, torsionReady bool
+)
+
+// initTable builds the fixed-base table on first use (worker children that never need it skip the cost).
+func initTable() {
+	if tabReady {
+		return
 	}
-	// fixed-base table
 	cur := base
 	for i := 0; i < 64; i++ {
 		baseTab[i][0] = Identity()
@@ -261,6 +267,14 @@ func initPoints() {
 			baseTab[i][j] = baseTab[i][j-1].Add(cur)
 		}
 		cur = baseTab[i][15].Add(cur)
+	}
+	tabReady = true
+}
+
+// initTorsion finds a generator of the 8-torsion on first use.
+func initTorsion() {
+	if torsionReady {
+		return
 	}
 	// torsion: find a point whose [L] multiple has order 8
 	for y := int64(2); ; y++ {
@@ -277,19 +291,24 @@ func initPoints() {
 			break
 		}
 	}
+	torsionReady = true
 }
 
 // Base returns B.
 func Base() Point { return base }
 
 // Torsion returns T_i = [i]T_1, T_1 of order 8 (i = 0..7).
-func Torsion(i int) Point { return torsion[i&7] }
+func Torsion(i int) Point {
+	initTorsion()
+	return torsion[i&7]
+}
 
 // BaseMul returns [k]B for 0 <= k < 2^256.
 func BaseMul(k *big.Int) Point {
 	if k.Sign() < 0 || k.BitLen() > 256 {
 		return base.Mul(k)
 	}
+	initTable()
 	r := Identity()
 	for i := 0; i < 64; i++ {
 		nib := 0
